@@ -370,6 +370,55 @@ func cmdIdl(args []string) int {
 					n++
 				}
 			}
+		case "names":
+			// a TLC-enumerated name (spec/IdlNames.tla) as the interface name / as a field name at three positions
+			var c struct {
+				Kind  string   `json:"kind"`
+				Pos   string   `json:"pos"`
+				Chars []string `json:"chars"`
+			}
+			if err := json.Unmarshal(line, &c); err != nil {
+				fmt.Fprintln(os.Stderr, "bad case:", err)
+				return 2
+			}
+			name := strings.Join(c.Chars, "")
+			var text string
+			switch {
+			case c.Kind == "iface":
+				text = "interface " + name + "\nmethod M() -> ()\n"
+			case c.Pos == "input":
+				text = "interface a.b\nmethod M(x: int, " + name + ": string) -> ()\n"
+			case c.Pos == "nested":
+				text = "interface a.b\nmethod M() -> (r: [](" + name + ": ?int, z: bool))\n"
+			default:
+				text = "interface a.b\ntype T (y, " + name + ")\nmethod M() -> ()\n"
+			}
+			r := safeParse(text)
+			g := tr.M{"returned": r.returned, "panicked": r.panicked, "timed_out": r.timedOut, "accepted": false, "notree": r.d == nil, "name_kept": false}
+			if r.returned && r.err == nil && r.d != nil {
+				g["accepted"] = true
+				func() {
+					defer func() { recover() }()
+					switch {
+					case c.Kind == "iface":
+						g["name_kept"] = r.d.Name == name && len(r.d.Methods) == 1 && r.d.Methods[0].Name == "M"
+					case c.Pos == "input":
+						fs := r.d.Methods[0].In.Fields
+						g["name_kept"] = len(fs) == 2 && fs[0].Name == "x" && fs[1].Name == name && fs[1].Type.Kind == idl.TypeString
+					case c.Pos == "nested":
+						fs := r.d.Methods[0].Out.Fields[0].Type.ElementType.Fields
+						g["name_kept"] = len(fs) == 2 && fs[0].Name == name && fs[0].Type.Kind == idl.TypeMaybe && fs[1].Name == "z"
+					default:
+						fs := r.d.Aliases[0].Type.Fields
+						g["name_kept"] = r.d.Aliases[0].Type.Kind == idl.TypeEnum && len(fs) == 2 && fs[0].Name == "y" && fs[1].Name == name
+					}
+				}()
+			}
+			if r.panicked {
+				g["panic"] = r.panicMsg
+			}
+			log.Ev("Name", tr.M{"case": json.RawMessage(append([]byte(nil), line...)), "got": g, "text": text})
+			n++
 		case "c09trunc":
 			// every truncation of a valid description (canonical and one random layout)
 			var c struct {
